@@ -44,6 +44,17 @@ type env struct {
 	schnorrSig     []byte
 	dst            []byte
 	dstA, dstB     []byte // two DIFFERENT domain separation tags longer than 255 bytes
+	// lists shared by all callers (a caller may pass the same slices to concurrent calls): a zero scalar in the middle
+	listS []*secp256k1.Scalar
+	listP []*secp256k1.Point
+}
+
+func (e *env) listFP() string {
+	s := ""
+	for i := range e.listS {
+		s += fmt.Sprintf("%p %p %v %s|", e.listS[i], e.listP[i], secp256k1.VerifScalarLimbs(e.listS[i]), lib.Raw(e.listP[i]))
+	}
+	return s
 }
 
 func newEnv() *env {
@@ -74,6 +85,8 @@ func newEnv() *env {
 	e.dst = []byte("verif/C20-DST")
 	e.dstA = bytes.Repeat([]byte("A"), 300)
 	e.dstB = bytes.Repeat([]byte("B"), 257)
+	e.listS = []*secp256k1.Scalar{e.S1, secp256k1.NewScalar(), e.S2}
+	e.listP = []*secp256k1.Point{e.P1, lib.MkPT(ref.G().Mul(big.NewInt(5))), e.P2}
 	return e
 }
 
@@ -83,7 +96,7 @@ func (e *env) fingerprint() string {
 		// layout hooks unavailable: fingerprint through the public accessors (copies) instead of the stored fields
 		return fmt.Sprint(lib.Raw(e.P1), lib.Raw(e.P2), secp256k1.VerifScalarLimbs(e.S1), secp256k1.VerifScalarLimbs(e.S2),
 			e.K.Bytes(), e.Q.Bytes(), lib.Raw(e.Q.Point()), e.peerQ.Bytes(), e.SK.Bytes(), e.SPK.Bytes(), lib.Raw(e.SPK.Point()),
-			e.digest, e.msg, e.sigDER, e.sigRec, e.schnorrSig, e.dst, e.dstA, e.dstB, secp256k1.VerifScalarLimbs(e.sigR), secp256k1.VerifScalarLimbs(e.sigS))
+			e.digest, e.msg, e.sigDER, e.sigRec, e.schnorrSig, e.dst, e.dstA, e.dstB, secp256k1.VerifScalarLimbs(e.sigR), secp256k1.VerifScalarLimbs(e.sigS), e.listFP())
 	}
 	ks, kp := secec.VerifPrivInternals(e.K)
 	qp, qb := secec.VerifPubInternals(e.Q)
@@ -93,7 +106,7 @@ func (e *env) fingerprint() string {
 	pq, pqb := secec.VerifPubInternals(e.peerQ)
 	return fmt.Sprint(lib.Raw(e.P1), lib.Raw(e.P2), secp256k1.VerifScalarLimbs(e.S1), secp256k1.VerifScalarLimbs(e.S2),
 		secp256k1.VerifScalarLimbs(ks), lib.Raw(qp), qb, kpb, secp256k1.VerifScalarLimbs(dp), secp256k1.VerifScalarLimbs(dn), lib.Raw(sp), sx, lib.Raw(pq), pqb,
-		e.digest, e.msg, e.sigDER, e.sigRec, e.schnorrSig, e.dst, e.dstA, e.dstB, secp256k1.VerifScalarLimbs(e.sigR), secp256k1.VerifScalarLimbs(e.sigS))
+		e.digest, e.msg, e.sigDER, e.sigRec, e.schnorrSig, e.dst, e.dstA, e.dstB, secp256k1.VerifScalarLimbs(e.sigR), secp256k1.VerifScalarLimbs(e.sigS), e.listFP())
 }
 
 // tablesComplete compares both generator tables (hook) with a reference table built by affine
@@ -285,6 +298,33 @@ var ops = []cop{
 	{"PreHashSchnorrMessage(tag B)", false, func(e *env) []byte {
 		return errOr(bitcoin.PreHashSchnorrMessage("verif/C20 another tag B", e.msg))
 	}, func(e *env) []byte { return ref.TaggedHash("verif/C20 another tag B", []byte("verif/C20 message")) }},
+	{"MultiScalarMult(shared lists, zero scalar in the middle)", true, func(e *env) []byte {
+		return new(secp256k1.Point).MultiScalarMult(e.listS, e.listP).UncompressedBytes()
+	}, func(e *env) []byte { return e.p1.Mul(e.s1).Add(e.p2.Mul(e.s2)).Uncompressed() }},
+	{"MultiScalarMultVartime(shared lists, zero scalar in the middle)", true, func(e *env) []byte {
+		return new(secp256k1.Point).MultiScalarMultVartime(e.listS, e.listP).UncompressedBytes()
+	}, func(e *env) []byte { return e.p1.Mul(e.s1).Add(e.p2.Mul(e.s2)).Uncompressed() }},
+	// default entropy source (rand == nil): not a function of the inputs, so the oracle is validity under the reference
+	// verifier; free-running passes only (see freeOnly)
+	{"SK.Sign(Schnorr, rand=nil) verifies", true, func(e *env) []byte {
+		sig, err := e.SK.Sign(nil, e.msg, nil)
+		return bb(err == nil && ref.BIP340Verify(ref.BIP340PubKey(e.d), e.msg, sig))
+	}, func(e *env) []byte { return []byte{1} }},
+	{"K.Sign(rand=nil) verifies", true, func(e *env) []byte {
+		sig, err := e.K.Sign(nil, e.digest, nil)
+		if err != nil {
+			return []byte("error: " + err.Error())
+		}
+		r, s, ok := ref.DERParseSig(sig)
+		return bb(ok && ref.ECDSAVerify(ref.BaseMul(e.d), e.digest, r, s))
+	}, func(e *env) []byte { return []byte{1} }},
+	{"GenerateKey() is a consistent pair", true, func(e *env) []byte {
+		k, err := secec.GenerateKey()
+		if err != nil {
+			return []byte("error: " + err.Error())
+		}
+		return bb(bytes.Equal(k.PublicKey().Bytes(), ref.BaseMul(ref.OS2IP(k.Bytes())).Uncompressed()))
+	}, func(e *env) []byte { return []byte{1} }},
 	{"NewPrivateKey(bytes) (fresh object, shared tables)", true, func(e *env) []byte {
 		k, err := secec.NewPrivateKey(ref.B32(e.s1))
 		if err != nil {
@@ -293,6 +333,10 @@ var ops = []cop{
 		return k.PublicKey().Bytes()
 	}, func(e *env) []byte { return ref.BaseMul(e.s1).Uncompressed() }},
 }
+
+// freeOnly: operations whose control flow depends on fresh randomness (the cooperative scheduler needs replayable
+// executions); they run in the free-running race pass and in the first-use processes only.
+var freeOnly = map[string]bool{"SK.Sign(Schnorr, rand=nil) verifies": true, "K.Sign(rand=nil) verifies": true, "GenerateKey() is a consistent pair": true}
 
 func findOp(n string) *cop {
 	for i := range ops {
